@@ -182,6 +182,13 @@ def noise():
     validate_loss_function(CrossEntropy())(0, {0: 0.5, 1: 0.5})
     validate_loss_function(MAE())(1.0, {"output": 2.0})
     run_one(("sage_river_labels", None, None, True), 98, 6)
+    # ... and one object of every configuration of the matrix itself, built with the same (default) arguments and used on
+    # another stream: nothing may be shared between library objects (class-level state, mutable default arguments, caches)
+    for cfg in matrix():
+        try:
+            run_one(cfg, 97, 7)
+        except Exception:
+            pass
     time.sleep(0.3)
     return junk
 
@@ -191,7 +198,8 @@ if __name__ == "__main__":
     n = int(sys.argv[4]) if len(sys.argv) > 4 else 40
     keep = noise() if variant == "noisy" else None
     res = {}
-    for cfg in matrix():
+    # the noisy process also runs the matrix in the opposite order
+    for cfg in (matrix()[::-1] if variant == "noisy" else matrix()):
         try:
             res["|".join(map(str, cfg))] = run_one(cfg, seed, n, dup={"dupcopy": "copy", "dupsame": "same"}.get(variant))
         except Exception as e:
